@@ -13,6 +13,38 @@ META = {
                 "controller part trusts the simulated API server (DESIGN section 2.3).",
         "technique": "property-based testing (rapid) against a reference model; exhaustive enumeration of a small box",
     },
+    "C03": {
+        "text": "Every pod delete issued in every reconcile of thousands of generated histories (stale caches, permuted cache order, injected API "
+                "faults, mid-reconcile interference) is classified against the snapshot that reconcile saw by an independent membership / "
+                "desired-ordinal / revision model; a metamorphic scenario checks that scale-in at slot k deletes exactly pod k and restarts nothing else.",
+        "design_ref": "DESIGN.md section 3, C03",
+        "note": "Bounded: ordinals 0..8, replicas <= 5, histories <= 40 ops; up-to-dateness is decided by the harness's own decode of the stored revision data.",
+        "technique": "stateful property-based testing (rapid) with per-reconcile invariant monitor + metamorphic relation",
+    },
+    "C04": {
+        "text": "Every pod create of every reconcile of generated histories must name a desired, vacant ordinal of the snapshot and never happen for a deleting set.",
+        "design_ref": "DESIGN.md section 3, C04",
+        "note": "Same bounds as C03; a create that hits a non-member squatter is not generated here (C10 covers foreign pods).",
+        "technique": "stateful property-based testing (rapid) with per-reconcile invariant monitor",
+    },
+    "C05": {
+        "text": "For OrderedReady sets, the create/delete calls of each reconcile are checked against the snapshot: one ordinal at most, healthy predecessors, scale-in from the top, update only when nothing is condemned and all desired pods are healthy.",
+        "design_ref": "DESIGN.md section 3, C05",
+        "note": "Same bounds as C03.",
+        "technique": "stateful property-based testing (rapid) with per-reconcile invariant monitor",
+    },
+    "C07": {
+        "text": "Update deletes and created pods of every reconcile are checked against partition, strategy and the revision each ordinal calls for, over histories with several template revisions in flight.",
+        "design_ref": "DESIGN.md section 3, C07",
+        "note": "Same bounds as C03; with a nil rollingUpdate block only the delete clauses are asserted (partition 0), the created-revision clause is skipped (upstream's implicit partition).",
+        "technique": "stateful property-based testing (rapid) with per-reconcile invariant monitor",
+    },
+    "C14": {
+        "text": "For Parallel sets every error-free reconcile must create all vacant desired ordinals and delete all live condemned pods of its snapshot, whatever the health of the other pods.",
+        "design_ref": "DESIGN.md section 3, C14",
+        "note": "Same bounds as C03.",
+        "technique": "stateful property-based testing (rapid) with per-reconcile invariant monitor",
+    },
 }
 
 _pending = "check not built yet in this round of the build; planned per DESIGN.md section 3 (generated-input search applies)"
